@@ -116,6 +116,9 @@ def run_case(ctx, seed, idx, tier):
             extra, _ = gen.gen_prog_stratified(rng)
             clauses = clauses + extra
         c = {'kind_template': 1}
+    if rng.random() < 0.2:
+        clauses = gen.add_confusable_twin(rng, clauses)
+        c['confusable_twin_terms'] = 1
     return _case(ctx, clauses, qn, qargs, rng, c)
 
 
